@@ -550,7 +550,7 @@ func init() {
 		ID:           "C06",
 		Level:        "exploration",
 		Technique:    "runtime monitoring: Go race detector + deterministic coarse schedule controller over the verif hooks (which goroutine runs its segment first after every token hand-off, late return of the caller) + stress runs with random yields at the hook points under GOMAXPROCS 1/2/16; self-comparison of everything the caller can observe across schedules; reader-after-return, consumed-input and goroutine-accounting monitors",
-		Rule:         "a case is one input executed under many schedules: parser inputs = small generated programs (valid; followed by further lines; one misplaced token at a random index; a lexical error (unterminated quote / expansion) at a random index; a parser error followed by a lexical error and vice versa; two errors at the end; reader failing at a random rune) and 18 dedicated inputs; arithmetic inputs = 22 dedicated expressions with 0..3 faults and random expression trees (some made ill-formed), through Eval and through Expand of $((...)). Schedules: ALL 2^h coarse vectors x {normal, late return} for inputs with h<=7 (thorough h<=10) hand-offs, otherwise all-parser-first, all-lexer-first, alternating, single-bit flips and 32 random vectors; then 30 (thorough 200) free-running stress repetitions for each of GOMAXPROCS 1, 2, 16. Everything is built with -race. distinct_nontrivial = distinct (input, event trace) pairs, i.e. distinct interleavings of hook events actually executed.",
+		Rule:         "a case is one input executed under many schedules (incl. the heredoc-pending+parser-error family: 4 heads with pending here-documents x 19 rejected line tails x 4 continuations, and 12 nested forms — whether the body is still read must not depend on who reaches the end of the line first): parser inputs = small generated programs (valid; followed by further lines; one misplaced token at a random index; a lexical error (unterminated quote / expansion) at a random index; a parser error followed by a lexical error and vice versa; two errors at the end; reader failing at a random rune) and 18 dedicated inputs; arithmetic inputs = 22 dedicated expressions with 0..3 faults and random expression trees (some made ill-formed), through Eval and through Expand of $((...)). Schedules: ALL 2^h coarse vectors x {normal, late return} for inputs with h<=7 (thorough h<=10) hand-offs, otherwise all-parser-first, all-lexer-first, alternating, single-bit flips and 32 random vectors; then 30 (thorough 200) free-running stress repetitions for each of GOMAXPROCS 1, 2, 16. Everything is built with -race. distinct_nontrivial = distinct (input, event trace) pairs, i.e. distinct interleavings of hook events actually executed.",
 		Assumptions:  []string{"only hook-point interleavings are forced; between two hook points the race detector (happens-before based) covers unsynchronised accesses", "the runtime's random choice in select cannot be forced, only repeated (stress runs)"},
 		Race:         true,
 		GoDebug:      []string{"panicnil=1", "panicnil=1 VERIF_NOHOOKS=1"},
